@@ -126,6 +126,37 @@ Theorem c20_starts_sso : forall v r d, cf_starts v r d = true -> cf_ssoenabled (
 Proof. intros v r d H He. exact (cf_starts_sso v r d H He). Qed.
 Print Assumptions c20_starts_sso.
 
+(** ... with the WHOLE redis section supplied ([cf_run_x]: redis.password, redis.username, redis.tls,
+    redis.connection-idle-timeout on any channel, any value): an SSO mode that reaches ListenAndServe has redis.address
+    or redis.uri; the other members of the Redis struct never stand in for a store. *)
+Theorem c20_sso_store_whatever_redis_rest : forall v r x d, cf_run_x v r x d = 0%Z ->
+  cf_ssoenabled (cf_resolve_all r) = true -> cf_redis_store_set (cf_redis_resolve r x) = true.
+Proof. exact cf_run_x_sso_store. Qed.
+Print Assumptions c20_sso_store_whatever_redis_rest.
+
+Example c20_nonvacuous_sso_store_rest : forall d, cf_run_x cf_cur cf_ex_proxy cf_ex_rest_default d = 0%Z /\
+  cf_ssoenabled (cf_resolve_all cf_ex_proxy) = true.
+Proof. exact cf_ex_proxy_rest_starts. Qed.
+
+(** pin: "the Redis struct differs from the Go zero value" is NOT the store test. Through config.Initialize the struct
+    is never the zero value (flag default redis.tls = true), and a password alone makes it non-zero: both are refused. *)
+Lemma pin_c20_redis_struct_nonzero_is_not_a_store : forall d,
+  cf_redis_nonzero (cf_redis_resolve cf_ex_proxy_nostore cf_ex_rest_default) = true /\
+  cf_run_x cf_cur cf_ex_proxy_nostore cf_ex_rest_default d = Zpos cf_E_sso_store /\
+  cf_redis_nonzero (cf_redis_resolve cf_ex_proxy_nostore cf_ex_rest_password) = true /\
+  cf_run_x cf_cur cf_ex_proxy_nostore cf_ex_rest_password d = Zpos cf_E_sso_store.
+Proof. exact cf_ex_nostore_refused. Qed.
+Print Assumptions pin_c20_redis_struct_nonzero_is_not_a_store.
+
+(** With well-formed redis.tls / redis.connection-idle-timeout, [cf_run_x] is [cf_run]: every theorem above carries over. *)
+Theorem c20_run_x_is_run : forall v r x d, cf_x_flag_bad x = false -> cf_x_env_bad x = false ->
+  cf_run_x v r x d = cf_run v r d.
+Proof. exact cf_run_x_well_formed. Qed.
+Print Assumptions c20_run_x_is_run.
+
+Example c20_nonvacuous_run_x_is_run : cf_x_flag_bad cf_ex_rest_password = false /\ cf_x_env_bad cf_ex_rest_password = false.
+Proof. split; reflexivity. Qed.
+
 (** Except for an SSO proxy: client id, credentials and discovery URL present; the discovery document supports the
     configured signing algorithm, acr (or its legacy translation) and locale. *)
 Theorem c20_starts_openid : forall v r d, cf_starts v r d = true -> ~ cf_is_proxy (cf_resolve_all r) ->
